@@ -293,7 +293,7 @@ impl Prop for C02Histories {
             .boxed()
     }
     fn cases(&self, tier: Tier) -> u32 {
-        tier.pick(3_000, 60_000)
+        tier.pick(8_000, 60_000)
     }
     fn test(&self, h: &QHistory, st: &mut Stats) -> TestResult {
         let seed = Pos::from_fen(&h.fen).map_err(Failure::new)?;
@@ -646,7 +646,7 @@ impl Prop for C06Positions {
         verdict_position()
     }
     fn cases(&self, tier: Tier) -> u32 {
-        tier.pick(10_000, 250_000)
+        tier.pick(30_000, 250_000)
     }
     fn test(&self, fen: &String, st: &mut Stats) -> TestResult {
         let pos = Pos::from_fen(fen).map_err(Failure::new)?;
@@ -670,7 +670,7 @@ impl Prop for C06Walks {
             .boxed()
     }
     fn cases(&self, tier: Tier) -> u32 {
-        tier.pick(1_200, 30_000)
+        tier.pick(4_000, 30_000)
     }
     fn test(&self, w: &gen::Walk, st: &mut Stats) -> TestResult {
         let (ps, ms) = gen::realize_walk(w);
@@ -955,7 +955,7 @@ impl Prop for C19Positions {
         gen::position()
     }
     fn cases(&self, tier: Tier) -> u32 {
-        tier.pick(10_000, 250_000)
+        tier.pick(40_000, 250_000)
     }
     fn test(&self, fen: &String, st: &mut Stats) -> TestResult {
         let pos = Pos::from_fen(fen).map_err(Failure::new)?;
